@@ -21,10 +21,12 @@ const (
 	c06FillFloodTiny
 	c06FillFloodMedium
 	c06FillOneBig
+	c06FillMedExact // the boundary fills again, with txs whose length prefix takes two bytes (>= 128 bytes long)
+	c06FillMedPlus1
 	c06NFills
 )
 
-var c06FillNames = []string{"empty", "boundary-1", "boundary", "boundary+1", "flood-tiny", "flood-medium", "one-big-tx"}
+var c06FillNames = []string{"empty", "boundary-1", "boundary", "boundary+1", "flood-tiny", "flood-medium", "one-big-tx", "boundary/130B-txs", "boundary+1/130B-txs"}
 
 // c06TxCost is the proto size a tx of length n adds to Data (tag + length varint + bytes).
 func c06TxCost(n int) int64 {
@@ -83,6 +85,20 @@ func (w *c06World) fill(total int64, unit int) (int, error) {
 		}
 	}
 	return n, nil
+}
+
+// c06MedUnit is the first body length in 130..132 with which fill can hit `total` exactly (a remainder of 1 or 2 bytes is no tx).
+func c06MedUnit(total int64) int {
+	for unit := 130; unit < 132; unit++ {
+		rem, uc := total, c06TxCost(unit)
+		for rem >= uc+3 || rem == uc {
+			rem -= uc
+		}
+		if rem != 1 && rem != 2 {
+			return unit
+		}
+	}
+	return 132
 }
 
 const c06BudgetKey = "state/execution.go:CreateProposalBlock:commit-budget-uses-current-validator-count"
@@ -155,6 +171,14 @@ func (w *c06World) proposer(r reporter, nEvMenu []int, lean bool) {
 						break
 					}
 				}
+			case c06FillMedExact, c06FillMedPlus1:
+				// the mempool holds exactly the budget / one byte more, almost all of it in txs of >= 128 bytes: every tx costs the
+				// block tag + two-byte length + body, so the last tx fits in the first fill and must stay behind in the second
+				t := D + int64(fillMode-c06FillMedExact)
+				if !small || t < 2*c06TxCost(130) {
+					continue
+				}
+				_, err = w.fill(t, c06MedUnit(t))
 			}
 			if err != nil {
 				r.Outcome("proposer:fill-refused")
